@@ -37,6 +37,9 @@ REAL_VS_STUB = {
 }
 # event fields that hold numbers computed by the system under test (everything else is a harness choice)
 SUT_OUTPUT_FIELDS = {"penalty", "digest", "outcome"}
+# the determinism probe re-runs the first runs of every batch in fresh interpreters that have ONE numba thread
+# (the main batch has 16): "however many threads the compiled kernels use and whether or not the process is fresh"
+DET_PROBE_ENV = {"NUMBA_NUM_THREADS": "1"}
 THREADS = [1, 2, 3, 5, 16]
 EVAL_SITES = ["objective", "group", "fill_item", "matrix", "residual", "line"]
 
@@ -108,6 +111,7 @@ class Run:
         self.ref_table: dict = {}  # x bytes -> reference penalty | exception name
         self.eval_xs: list = []  # x of every EVAL op (for RETURN)
         self.last_x = None
+        self.requested_threads = 16
         self.faulted_x = None
         self.fault_pending = False
         self.opt_digests: dict = {}
@@ -274,7 +278,7 @@ class Run:
             )
             raise Abort()
         d = core.arr_digest(pen)
-        rec.event(op=tag, x=core.arr_digest(x), penalty=d, threads=self.numba.get_num_threads())
+        rec.event(op=tag, x=core.arr_digest(x), penalty=d, threads=self.requested_threads)
         rec.logical["evaluations"] += 1
         if isinstance(ref, str):
             rec.violate(
@@ -289,7 +293,7 @@ class Run:
                 "C10/impure-self",
                 "purity",
                 f"{tag}: penalty at x={x.tolist()} differs from the penalty computed earlier at the same x "
-                f"(after_fault={after_fault}, threads={self.numba.get_num_threads()})",
+                f"(after_fault={after_fault}, threads={self.numba.get_num_threads()} of {self.numba.config.NUMBA_NUM_THREADS})",
             )
             raise Abort()
         self.self_table.setdefault(key, d)
@@ -409,8 +413,9 @@ class Run:
                     pen = run.evaluate(fun, x, "RETRY")
                     rec.probe("retry_of_failed_point")
                 elif kind == "THREADS":
+                    run.requested_threads = op["t"]
                     run.numba.set_num_threads(min(op["t"], run.numba.config.NUMBA_NUM_THREADS))
-                    rec.event(op="THREADS", t=run.numba.get_num_threads())
+                    rec.event(op="THREADS", t=op["t"])
                     rec.probe("thread_switch")
                     continue
                 else:
